@@ -37,6 +37,9 @@ LEVEL = {
  "C18": ("fault_enumeration", "exhaustive enumeration of cancellation points (every observable step of the merge) on the real Merge",
          "for every merge input the fault-free run is recorded and one merge is run per closing point (before the call, inside every observable write step / engine call, never); each run must end in success with a complete correct file or in the closed error with no file; both build tags",
          "cancellation is observed only at polls of the merge goroutine, so closing inside observable step j covers every real closing time between steps j and j+1 (DESIGN 4 C18)", "4 C18"),
+ "C14": ("exploration", "bounded-exhaustive input enumeration on the implementation (vectors tag, stand-in engine) vs. reference top-k oracle",
+         "every small vector batch x metric x exclusion bitmap x query x k x eligible subset x requiresFiltering, in memory and re-opened, is searched through the real zapx code and the result set checked against an exact top-k oracle that tolerates ties; a 1200-vector lattice exercises the clustered (IVF) paths and both selector kinds with a soundness oracle; exhaustive within the bounds",
+         "trusted base: fidelity of the fakefaiss stand-in to the go-faiss contract (DESIGN 3.4); real FAISS not available offline", "4 C14"),
  "C01": ("exploration", "bounded-exhaustive input enumeration on the implementation vs. reference model",
          "every batch of a stated finite alphabet (cell menu per document x field, N<=3; column and chunk-boundary families) x chunk modes x both build tags is built by the real code and its complete term/postings content compared with an independent reference model; exhaustive within the bounds, no sampling",
          "reference model in harness/ref; inputs only inside the alphabet; Go map order not enumerable (semantic oracle)", "4 C01"),
